@@ -24,3 +24,19 @@ def run_coro(coro):
         return e.value
     coro.close()
     raise Suspended("coroutine suspended; the harness assumes it runs to completion")
+
+
+def conc(x, lo, hi):
+    """Branch until the bounded symbolic int x is a concrete Python int on this path."""
+    v = lo
+    while v < hi:
+        if x == v:
+            return v
+        v += 1
+    return hi
+
+
+def concb(b):
+    if b:
+        return True
+    return False
